@@ -141,7 +141,9 @@ def entryPredDiags (g : Cfg) (cn : CNode) (p : Nat) : List Diag :=
   let pn := (g.get p).node
   if cn.funcs.isEmpty then []
   else if pn.isProgramEntry then cn.funcs.map fun _ => onNode "FirstInstructionIsFunction" cn.node
-  else if pn.isUnconditionalJump then [onNode "InvalidJumpToFunction" cn.node]
+  -- a jump that is itself part of every function the entry belongs to closes a loop, it enters nothing
+  else if pn.isUnconditionalJump && cn.funcs.any (fun f => !(g.get p).funcs.contains f) then
+    [onNode "InvalidJumpToFunction" cn.node]
   else []
 
 def unreachableDiag (cn : CNode) : Diag :=
